@@ -25,6 +25,8 @@ func main() {
 		cmdSeq(os.Args[2:])
 	case "cond":
 		cmdCond(os.Args[2:])
+	case "ingest":
+		cmdIngest(os.Args[2:])
 	default:
 		fmt.Fprintln(os.Stderr, "unknown subcommand", os.Args[1])
 		os.Exit(2)
@@ -183,4 +185,57 @@ func cmdCond(args []string) {
 	}
 	of.Close()
 	fmt.Printf("RAN scenarios=%d inconclusive=0\n", n)
+}
+
+func cmdIngest(args []string) {
+	fs := flag.NewFlagSet("ingest", flag.ExitOnError)
+	scen := fs.String("scen", "", "scenario ndjson file")
+	out := fs.String("out", "", "trace ndjson output")
+	par := fs.Int("par", 4, "parallel instances")
+	fs.Parse(args)
+	f, err := os.Open(*scen)
+	if err != nil {
+		fatal(err)
+	}
+	var scs []drv.IngestScenario
+	rd := bufio.NewScanner(f)
+	for rd.Scan() {
+		var sc drv.IngestScenario
+		if err := json.Unmarshal(rd.Bytes(), &sc); err != nil {
+			fatal(err)
+		}
+		scs = append(scs, sc)
+	}
+	f.Close()
+	res := make([][]drv.Ev, len(scs))
+	inc := make([]string, len(scs))
+	var wg sync.WaitGroup
+	sem := make(chan struct{}, *par)
+	for i := range scs {
+		wg.Add(1)
+		sem <- struct{}{}
+		go func(i int) {
+			defer wg.Done()
+			defer func() { <-sem }()
+			res[i], inc[i] = drv.RunIngest(scs[i])
+		}(i)
+	}
+	wg.Wait()
+	of, err := os.Create(*out)
+	if err != nil {
+		fatal(err)
+	}
+	nInc := 0
+	for i := range scs {
+		if inc[i] != "" {
+			nInc++
+			fmt.Printf("INCONCLUSIVE tr=%d %s\n", scs[i].Tr, inc[i])
+			continue
+		}
+		if err := drv.WriteTrace(of, res[i]); err != nil {
+			fatal(err)
+		}
+	}
+	of.Close()
+	fmt.Printf("RAN scenarios=%d inconclusive=%d\n", len(scs), nInc)
 }
